@@ -470,9 +470,10 @@ theorem surplusApprox_exact (n : Nat) (v : Nat → α) : surplusApprox (· + ·)
     de-normalise it with a recorded surplus `g` that is within `eg` of `W` and the (exactly stored) singleton values:
     the result is within `rtBound u n v eg c` of the original `v c`.  No superadditivity is used.
     (`rtBound` is explicit: `(1+u)^|c|·(u·|w c| + (1+u)·(normErr·(|W| + eg) + |q|·eg)) + ((1+u)^|c| − 1)·(|w c| + Σ_{i∈c}|v{i}|)`;
-    it is 0 for `u = 0, eg = 0` — `bounds_vanish` — and first-order it is
-    `(2|c| + 2)·u·(|v c| + Σ_{i∈c}|v{i}|) + |q|·(n·u·mag v N + eg)`: the second summand is the rounding of the two
-    independently computed surpluses, `wApprox N` and `g`, carried into row `c` by the factor `q = w c / W`.) -/
+    it is 0 for `u = 0, eg = 0` — `bounds_vanish` — and to first order in `u` it is
+    `2u·|w c| + |c|·u·mag v c + |c|·u·(|w c| + Σ_{i∈c}|v{i}|) + |q|·(n·u·mag v N + eg)`, at most
+    `(3|c| + 2)·u·mag v c + |q|·(n·u·mag v N + eg)`: the last summand is the rounding of the two independently
+    computed surpluses, `wApprox N` and `g`, carried into row `c` by the factor `q = w c / W`.) -/
 theorem roundtrip_error (hu : 0 ≤ u) (hadd : RelAdd add' u) (hsub : RelSub sub' u) (hmul : RelMul mul' u)
     (hdiv : RelDiv div' u) (n : Nat) (v : Nat → α) (hmargin : errW u v (grand n) < |closedW v (grand n)|)
     {g eg : α} (hg : |g - closedW v (grand n)| ≤ eg) (c : Nat) :
@@ -594,7 +595,7 @@ theorem roundtrip_error_code (hu : 0 ≤ u) (hadd : RelAdd add' u) (hsub : RelSu
     `v ∅ = 0`, magnitudes `≤ M`, `(n+1)·u ≤ 1/2`, and the surplus not lost in the rounding: `4(n+1)·u·M ≤ W`.
     Then the whole rounded round trip (normalise, record the surplus, de-normalise) returns every value within
     `71·(n+1)·u·M` of the original: an absolute error LINEAR in the unit round-off `u`, relative to the largest
-    operand magnitude `M`.  (The constant is not sharp; the first-order size is about `(4n + 3)·u·M`.) -/
+    operand magnitude `M`.  (The constant is not sharp; the first-order size of `rtBoundSA` is at most `(5n + 5)·u·M`.) -/
 theorem roundtrip_error_linear (hu : 0 ≤ u) (hadd : RelAdd add' u) (hsub : RelSub sub' u) (hmul : RelMul mul' u)
     (hdiv : RelDiv div' u) (h : SA n v) (h0 : v 0 = 0) {M : α} (hM : ∀ c, c < 2 ^ n → mag v c ≤ M)
     (hx : ((n + 1 : ℕ) : α) * u ≤ 1 / 2) (hW : 0 < closedW v (grand n))
